@@ -171,11 +171,14 @@ class FlatMixin:
         region_lo = ZI(v.off)
         region_hi = ZI(binop('Add', v.off, prod_term(v.lens)))
 
-        def written(*j):
+        def written(*L):
+            # stated over lens coordinates (the address is then a plain FLAT(lens; L) term that matches reads directly);
+            # the view index is j[k] = L[perm[k]] - starts[perm[k]]
+            j = [binop('Sub', L[v.perm[k]], v.starts[v.perm[k]]) for k in range(R)]
             g = b_and(*[b_and(compare('GtE', j[k], 0), compare('Lt', j[k], v.shape[k])) for k in range(R)])
             x = vf(tuple(j))
             x = ZR(x) if base.elem == REAL else Z(x)
-            return f_imp(g, z3.Select(new, v.address(j)) == x)
+            return f_imp(g, z3.Select(new, ZI(binop('Add', v.off, flat_term(v.lens, L)))) == x)
 
         def rest_of_region(*L):
             inlens = b_and(*[b_and(compare('GtE', L[k], 0), compare('Lt', L[k], v.lens[k])) for k in range(R)])
@@ -200,8 +203,65 @@ def flat_axioms(rank, app):
     return [z3.Implies(inbox, z3.And(app >= 0, app < P)), z3.Implies(z3.And(*[s >= 0 for s in S]), P >= 0)]
 
 
+def _factors(t):
+    """(a, b) if t is syntactically a product of two terms."""
+    if z3.is_app(t) and t.decl().kind() == z3.Z3_OP_MUL and t.num_args() == 2:
+        return t.arg(0), t.arg(1)
+    return None
+
+
 def prod_axioms(rank, app):
-    return [z3.Implies(z3.And(*[s >= 0 for s in app.children()]), app >= 0)]
+    out = [z3.Implies(z3.And(*[s >= 0 for s in app.children()]), app >= 0)]
+    args = app.children()
+    for k, a in enumerate(args):
+        f = _factors(a)
+        if f is not None:
+            for (x, y) in (f, (f[1], f[0])):
+                # multiplicativity: prod(.., x*y, ..) = y * prod(.., x, ..)
+                out.append(app == y * prod_term(args[:k] + [x] + args[k + 1:]))
+    return out
+
+
+def concat_block_axioms(rank, app):
+    """Row-major concatenation along axis 0 (DESIGN 2.4), block form: for a lens whose first extent is a product m*p and a
+    first index of the shape m*r + i0:  FLAT([m*p, rest]; m*r + i0, rest_idx) = r*PROD([m, rest]) + FLAT([m, rest]; i0, rest_idx)."""
+    ch = app.children()
+    S, L = ch[:rank], ch[rank:]
+    f = _factors(S[0])
+    if f is None:
+        return []
+    out = []
+    L0 = z3.simplify(L[0])
+    adds = L0.children() if (z3.is_app(L0) and L0.decl().kind() == z3.Z3_OP_ADD) else [L0]
+    for (m, p) in (f, (f[1], f[0])):
+        for t in adds:
+            g = _factors(t)
+            if g is None:
+                continue
+            for (u, r) in (g, (g[1], g[0])):
+                if u.eq(m):
+                    i0 = z3.simplify(L0 - t)
+                    small = [m] + list(S[1:])
+                    out.append(z3.Implies(z3.And(r >= 0, r < p, i0 >= 0, i0 < m),
+                                          app == r * prod_term(small) + FLAT(rank)(*(small + [i0] + list(L[1:])))))
+    return out
+
+
+def concat_rel_axioms(rank, app, r):
+    """Relational block form, valid for every integer r: for a lens whose first extent is a product m*p,
+    0 <= r < p and 0 <= x - m*r < m  =>  FLAT([m*p, rest]; x, rest_idx) = r*PROD([m, rest]) + FLAT([m, rest]; x - m*r, rest_idx)."""
+    ch = app.children()
+    S, L = ch[:rank], ch[rank:]
+    f = _factors(S[0])
+    if f is None:
+        return []
+    out = []
+    for (m, p) in (f, (f[1], f[0])):
+        i0 = L[0] - m * r
+        small = [m] + list(S[1:])
+        out.append(z3.Implies(z3.And(r >= 0, r < p, i0 >= 0, i0 < m),
+                              app == r * prod_term(small) + FLAT(rank)(*(small + [i0] + list(L[1:])))))
+    return out
 
 
 def flat_pair_axiom(rank, a1, a2):
